@@ -305,8 +305,15 @@ def check(case):
         if not center:
             e2 = KernelPCovR(mixing=mixing, n_components=k, svd_solver="full", kernel="precomputed", regressor=regr, center=False, tol=1e-12)
             exc2 = _fit(e2, K_NN_raw, Y, None)
-            feed = lambda Xv: _kernel(Xv, X, kp)  # noqa: E731
+            feed = lambda Xv: K_NN_raw if Xv is X else _kernel(Xv, X, kp)  # noqa: E731  (the SAME train kernel array is reused)
             name = "precomputed-kernel"
+        elif (k + len(X)) % 2:
+            # precomputed kernel with the estimator's own centring; the train kernel array is reused after fit
+            e2 = KernelPCovR(mixing=mixing, n_components=k, svd_solver="full", kernel="precomputed", regressor=regr, center=True, tol=1e-12)
+            Kuser = K_NN_raw.copy()
+            exc2 = _fit(e2, Kuser, Y, None)
+            feed = lambda Xv: Kuser if Xv is X else _kernel(Xv, X, kp)  # noqa: E731
+            name = "precomputed-kernel-centred"
         else:
             kn = KernelNormalizer()
             Kn = kn.fit_transform(K_NN_raw.copy())
